@@ -75,7 +75,7 @@ PROPS["C07"] = dict(
     bounds="min-ADA: coin and coins_per_byte over all u64, size of the rest of the output K over 1..2^32 (all shapes at once through the size lemma); "
            "admission and size gates: every size, limit and amount over its full range",
     assumptions=["size lemma len(output.to_bytes()) = K + head(coin) with K independent of the coin: established by the C03 E1 harnesses (to_bytes == reference bytes for every coin)",
-                 "change outputs are covered through add_output (every output of the balancing step goes through it, C05); the collateral return through the collateral setters (C19's obligations, run by this check as well: "
+                 "change outputs: c07_e2_change_outputs_pass_admission decides on C05's exploration of the balancing step (1 round, stubs as listed under C05) that every output the step creates went through add_output; the collateral return through the collateral setters (C19's obligations, run by this check as well: "
                  "a setter accepts only a return that meets the minimum computed by min_ada_for_output from the stored output itself)"],
     e1=[],
     e2=["c07", "c19"],
@@ -162,7 +162,7 @@ PROPS["C09"] = dict(
     bounds="each of the seven script sources present/absent with one arbitrary Plutus witness; no / 1 / 2 extra witness datums (thorough: also an empty list)",
     assumptions=["PlutusWitnesses::collect and hash_script_data are uninterpreted: what is decided is that the hash side and the emitted witness set receive the same witnesses, redeemers, datum list and language set",
                  "the byte format of the hash preimage (hash_script_data, language_views_encoding, PlutusList::to_set_bytes) and blake2b are outside this obligation",
-                 "auxiliary-data hash: build_and_size sets hash_auxiliary_data(self.auxiliary_data) and build_tx_unsafe attaches the same field (C05 gate obligation covers the latter)"],
+                 "auxiliary-data hash: AuxiliaryData::to_bytes and blake2b256 are uninterpreted functions of the value / the buffer: decided is that the body carries blake2b256(to_bytes(x)) for exactly the auxiliary data x the released transaction attaches (present / absent alike); that Transaction serializes x with the same bytes as x.to_bytes() is the generic Serialize/to_bytes macro (C01)"],
     e1=[],
     e2=["c09"],
 )
@@ -203,9 +203,11 @@ PROPS["C01"] = dict(
 )
 
 PROPS["C13"] = dict(
-    bounds="size model kernels and the output-cost fixed point: every argument over its full range (output size 10..2^32); pure-ADA top-up step: arbitrary proposal state, every measured size and limit symbolic",
-    assumptions=["the grouping logic as a whole (every UTxO spent exactly once, per-transaction balance, fee for the real size) is hash-container code over whole transactions and is NOT decided; "
-                 "it is only exercised natively by the send-all battery when a solver counterexample needs confirmation"],
+    bounds="size model kernels and the output-cost fixed point: every argument over its full range (output size 10..2^32); pure-ADA top-up step: arbitrary proposal state, every measured size and limit symbolic; batch loop: 0..3 proposals x 0..2 extensions; create_tx: 0..3 recorded indices, 0..2 outputs",
+    assumptions=["spend-everything clause: decided are the batch loop (Ok only when nothing remains in the final grouping state; has_assets / has_ada are uninterpreted predicates of a state version that "
+                 "advances at every try_append_next_utxos call, the only &mut callee) and create_tx (inputs = the supplied UTxOs at the recorded indices, each once); NOT decided: that the extension step moves "
+                 "exactly the UTxOs it adds to a proposal out of the free sets (hash-container code), per-transaction balance, fee for the real size - exercised natively by the send-all batteries only",
+                 "TxOutputProposal::create_output, the extension / closing steps and TransactionInputs::from_vec (C16's claim) are stubs with arbitrary outcomes in those two obligations"],
     e1=[],
     e2=["c13"],
 )
